@@ -34,7 +34,8 @@ META = {
     "design_ref": "DESIGN.md §5 C10",
 }
 
-WANTS = {"Wants2": {"f1": ["a", "b"], "f2": ["a"]}, "WantsSame": {"f1": ["a"], "f2": ["a"]}}
+WANTS = {"Wants2": {"f1": ["a", "b"], "f2": ["a"]}, "WantsSame": {"f1": ["a"], "f2": ["a"]},
+         "Wants3": {"f1": ["a"], "f2": ["a"], "f3": ["a"]}}
 
 
 def _unset(v):
@@ -132,6 +133,18 @@ def run(ctx):
                 behaviours.append(b)
         elif s.ok:
             ctx.note("strict invariant %s holds in the model (no counterexample to replay)" % inv)
+    # 4b. scenario witnesses: histories the replay must contain whatever the seed (TLC reports the
+    #     negated goal as "violated"; DoneMeansFilled and FilledOnlyIfVerified hold along them)
+    n_scen = 0
+    for cfg, goal, wants in (("scen_dupleaves", "GoalDupLeavesFirst", "WantsSame"), ("scen_thirdgap", "GoalThirdInGap", "Wants3")):
+        s = ctx.tlc("bitswap/MCBitswap.tla", "bitswap/MCBitswap_%s.cfg" % cfg, must_pass=False, count=False, workers=8,
+                    timeout=300, deadlock=False)
+        b = behaviour_from_trace(s, WANTS[wants], cfg, cfg) if s.violated == goal else None
+        if b is None:
+            ctx.inconclusive("no witness history from %s (violated=%s)" % (cfg, s.violated))
+        else:
+            behaviours.append(b)
+            n_scen += 1
     # 5. simulated behaviours (the model's own history variable)
     sim = ctx.tlc("bitswap/MCBitswap.tla", "bitswap/MCBitswap_sim.cfg", count=False, workers=4 if ctx.quick else 8,
                   timeout=300 if ctx.quick else 1200, deadlock=False,
@@ -154,7 +167,7 @@ def run(ctx):
             break
     beh_path = os.path.join(ctx.work, "bitswap_behaviours.json")
     json.dump(behaviours, open(beh_path, "w"))
-    ctx.log("behaviours to replay: %d (%d counterexamples)" % (len(behaviours), len(behaviours) - k))
+    ctx.log("behaviours to replay: %d (%d counterexamples, %d scenario witnesses)" % (len(behaviours), len(behaviours) - k - n_scen, n_scen))
 
     # 6. identifier <-> CID on the byte level: the model's boundary lattice (ShwapIDs.tla)
     ri = ctx.tlc("shwap/ShwapIDs.tla", "shwap/ShwapIDs_%s.cfg" % tier, workers=16, timeout=900, deadlock=False)
@@ -171,8 +184,9 @@ def run(ctx):
                                         "VERIF_MUTATIONS": 2000 if ctx.quick else 20000}, timeout=1500)
     cnt = rep.get("counters", {}) or {}
     for need in ("cases_run", "cases_full_flow", "served_sample", "served_row", "served_rnd", "served_range", "served_store_recent", "served_store_odsq4",
-                 "served_store_ods", "served_store_q4pruned", "served_store_ok", "mutated_blocks",
-                 "behaviours_replayed", "cid_roundtrips_ok", "cid_rejected", "cid_id_refused"):
+                 "served_store_ods", "served_store_q4pruned", "served_store_memory", "served_store_ok",
+                 "served_rnd_present", "served_rnd_absent-inside", "served_rnd_outside_refused", "mutated_blocks",
+                 "behaviours_replayed", "behaviours_replayed_scen_dupleaves", "behaviours_replayed_scen_thirdgap", "cid_roundtrips_ok", "cid_rejected", "cid_id_refused"):
         if cnt.get(need, 0) < 1:
             ctx.inconclusive("vacuity: driver counter %s is zero (%s)" % (need, cnt))
     # a model counterexample that the real code did not reproduce: the model over-approximates (rule 1)
